@@ -6,6 +6,7 @@ import (
 	"fmt"
 	"os"
 	"path/filepath"
+	"sort"
 	"sync"
 	"sync/atomic"
 	"time"
@@ -866,10 +867,42 @@ func (m *Manager) loadSSTables() error {
 		return fmt.Errorf("failed to read SSTable directory: %w", err)
 	}
 
+	// m.sstables is searched from its end, so it has to run from the oldest to the
+	// newest table: deeper levels are older than shallower ones, and within a level
+	// the file sequence (then the timestamp) gives the age. Plain name order would
+	// put level 1 files after - that is, make them newer than - level 0 files.
+	type tableName struct {
+		level     int
+		sequence  uint64
+		timestamp int64
+	}
+	parse := func(name string) tableName {
+		var tn tableName
+		if n, err := fmt.Sscanf(name, sstableFilenameFormat, &tn.level, &tn.sequence, &tn.timestamp); n != 3 || err != nil {
+			return tableName{}
+		}
+		return tn
+	}
+	sort.SliceStable(entries, func(i, j int) bool {
+		a, b := parse(entries[i].Name()), parse(entries[j].Name())
+		if a.level != b.level {
+			return a.level > b.level
+		}
+		if a.sequence != b.sequence {
+			return a.sequence < b.sequence
+		}
+		return a.timestamp < b.timestamp
+	})
+
 	// Loop through all entries
 	for _, entry := range entries {
 		if entry.IsDir() || filepath.Ext(entry.Name()) != ".sst" {
 			continue // Skip directories and non-SSTable files
+		}
+
+		// Continue the file numbering after the highest number in use
+		if tn := parse(entry.Name()); tn.sequence >= m.nextFileNum {
+			m.nextFileNum = tn.sequence + 1
 		}
 
 		// Open the SSTable
